@@ -721,6 +721,73 @@ class ClosableIter:
         self._counts["iterable.close"] += 1
 
 
+def shared_cleanup_stage(chk):
+    """an application that wraps every response in wsgi.ClosingIterator with ONE clean-up collection shared across requests
+    (`ClosingIterator(resp(environ, start_response), CLEANUPS)`): over two and three requests each body is closed once, its
+    call_on_close callbacks run once, each shared clean-up runs once per request, and the caller's collection is left as it was"""
+    from werkzeug.test import create_environ
+    from werkzeug.wrappers import Response
+    from werkzeug.wsgi import ClosingIterator
+
+    class Body:
+        def __init__(self, i, events):
+            self.i, self.events = i, events
+
+        def __iter__(self):
+            return iter([b"x", b"y"])
+
+        def close(self):
+            self.events.append(f"body{self.i}.close")
+
+    forms = {"the same list": lambda a, b: [a, b], "a tuple": lambda a, b: (a, b), "a single callable": lambda a, b: a,
+             "None": lambda a, b: None, "a list with one entry": lambda a, b: [a], "an empty list": lambda a, b: []}
+    for form, build in forms.items():
+        for nreq in (2, 3):
+            for wrap_what in ("response", "raw iterable"):
+                events: list = []
+                shared = build(lambda: events.append("cleanup-a"), lambda: events.append("cleanup-b"))
+                snapshot = list(shared) if isinstance(shared, (list, tuple)) else shared
+                case = {"kind": "shared-cleanups", "callbacks": form, "requests": nreq, "wrapped": wrap_what}
+
+                def app(environ, start_response, i):
+                    if wrap_what == "raw iterable":
+                        start_response("200 OK", [("Content-Length", "2")])
+                        return ClosingIterator(Body(i, events), shared)
+                    r = Response(Body(i, events))
+                    r.call_on_close(lambda: events.append(f"resp{i}.on_close"))
+                    return ClosingIterator(r(environ, start_response), shared)
+                try:
+                    for i in range(nreq):
+                        it = app(create_environ("/"), lambda *a, **k: None, i)
+                        data = b"".join(it)
+                        it.close()
+                        if data != b"xy":
+                            chk.fail("wsgi-body-bytes", f"request {i}: body {data!r}", case)
+                except Exception as e:  # noqa: BLE001
+                    chk.fail("close-shared-callbacks", f"{type(e).__name__}: {e} escaped", case)
+                    continue
+                from collections import Counter
+                got = Counter(events)
+                per_req = {"the same list": 1, "a tuple": 1, "a list with one entry": 1}.get(form, 0)
+                want = Counter()
+                for i in range(nreq):
+                    want[f"body{i}.close"] = 1
+                    if wrap_what == "response":
+                        want[f"resp{i}.on_close"] = 1
+                want["cleanup-a"] = nreq if form in ("the same list", "a tuple", "a single callable", "a list with one entry") else 0
+                want["cleanup-b"] = nreq if form in ("the same list", "a tuple") else 0
+                want = +want
+                now = list(shared) if isinstance(shared, (list, tuple)) else shared
+                if got != want:
+                    chk.fail("close-shared-callbacks", f"{nreq} requests sharing {form} of clean-ups around a {wrap_what}: close events "
+                             f"{dict(got)!r}, each body / callback exactly once and each clean-up once per request is {dict(want)!r}", case)
+                elif now != snapshot:
+                    chk.fail("close-shared-callbacks", f"ClosingIterator changed the caller's clean-up collection: {len(snapshot)} entries before, "
+                             f"{len(now)} after {nreq} requests", case)
+                chk.case(("shared-cleanups", form, nreq, wrap_what), nontrivial=True)
+    chk.count("shared clean-up collections across requests (oracle only)", len(forms) * 4)
+
+
 def drivers_close_once(chk, rng, quick):
     """the close clause through werkzeug's own WSGI drivers: test.run_wsgi_app, Client.open and Response.from_app,
     buffered and streaming, for bodies with and without chunks"""
@@ -935,6 +1002,7 @@ def run(chk: Check) -> None:
     chk.count("location x request URL(oracle only)", n_env)
 
     drivers_close_once(chk, rng, quick)
+    shared_cleanup_stage(chk)
 
     # ================================================ model side
     exe8 = chk.build_modelrun("C08")
